@@ -229,11 +229,11 @@ package raft
 //@   requires LeaderWF(l) && l.flushed >= l.commitIndex
 //@   modifies l.node, l.numVoters, l.neHead, l.neTail, l.waitStable, l.state, l.leader, l.commitIndex, l.storage.lastLogIndex, l.storage.lastLogTerm, l.storage.gterm, l.storage.gtyp, l.storage.flushed, l.storage.configs, Log.glast, contents(l.repls), replication.status, round.Ordinal, round.Start, round.End, round.LastIndex, newEntry.next, entry.index, entry.term, task.result, task.greplied, contents(l.resolver.addrs), contents(l.connPools), closeRequested, sortgen
 //@   maypanic OpError
-//@   ensures [C02.leader-commit-rule] l.commitIndex != old(l.commitIndex) ==> l.commitIndex > old(l.commitIndex) && l.commitIndex >= l.startIndex && l.commitIndex <= l.lastLogIndex
+//@   ensures [C02+C19.leader-commit-rule] l.commitIndex != old(l.commitIndex) ==> l.commitIndex > old(l.commitIndex) && l.commitIndex >= l.startIndex && l.commitIndex <= l.lastLogIndex
 //@   ensures [C06.flush-before-advance] l.flushed >= l.commitIndex
 //@   ensures [C08.configs-change-only-forward] l.configs.Latest.Index >= old(l.configs.Latest.Index) && (old(CfgCommitted(l.storage)) && l.configs.Latest.Index == old(l.configs.Latest.Index) ==> l.configs.Latest == old(l.configs.Latest) && l.configs.Committed == old(l.configs.Committed))
 //@   ensures LeaderWF(l) && l.Raft == old(l.Raft) && l.storage == old(l.storage) && l.startIndex == old(l.startIndex) && l.term == old(l.term) && l.nid == old(l.nid)
-//@   ensures l.commitIndex >= old(l.commitIndex) && l.lastLogIndex >= old(l.lastLogIndex)
+//@   ensures [C19.commit-monotone] l.commitIndex >= old(l.commitIndex) && l.lastLogIndex >= old(l.lastLogIndex)
 //@   ensures [C02.own-term-entries] forall(i, old(l.lastLogIndex) < i && i <= l.lastLogIndex ==> l.gterm[i] == l.term)
 //@   ensures forall(i, i <= old(l.lastLogIndex) ==> l.gterm[i] == old(l.gterm[i]) && l.gtyp[i] == old(l.gtyp[i]))
 //@   ensures l.repls == old(l.repls) && forall(p, ReplId(p) == old(ReplId(p)))
